@@ -5022,6 +5022,148 @@ fn derived_ids(cx: &mut Ctx) {
 	}
 }
 
+// ---------------------------------------------------------------------------------------------
+// lists with REPEATED items (part of run `msg`): a reader must return what was encoded, not a
+// de-duplicated / compacted version of it. For every list-carrying codec whose wire format can
+// carry the same item twice: adjacent duplicates, non-adjacent duplicates, all-equal lists, at
+// lengths 2, 3 and the maximum, written and read at every protocol version (`roundtrip_all`:
+// equal value, everything consumed, identical re-encoding, `#ORACLE-FAIL C10` with the bytes).
+// Where the reader legitimately refuses duplicates (sorted-unique body vectors) the expected verdict
+// is the refusal (the `duplicate` perturbations of the `tx` / `block` runs), never a shorter list.
+
+/// index patterns over distinct items 0, 1, 2, …: (name, indices)
+fn dup_patterns(max: usize) -> Vec<(String, Vec<usize>)> {
+	let mut v: Vec<(String, Vec<usize>)> = vec![
+		("adjacent-2".into(), vec![0, 0]),
+		("adjacent-3-front".into(), vec![0, 0, 1]),
+		("adjacent-3-back".into(), vec![2, 0, 0]),
+		("nonadjacent-3".into(), vec![0, 1, 0]),
+		("all-equal-3".into(), vec![0, 0, 0]),
+		("two-pairs-4".into(), vec![0, 0, 1, 1]),
+		("run-inside-5".into(), vec![0, 1, 1, 1, 2]),
+	];
+	if max >= 4 {
+		v.push((format!("all-equal-max({})", max), vec![0; max]));
+		let mut end: Vec<usize> = (0..max - 1).collect();
+		end.push(max - 2);
+		v.push((format!("adjacent-at-end-max({})", max), end));
+		let mut front: Vec<usize> = vec![0];
+		front.extend(0..max - 1);
+		v.push((format!("adjacent-at-front-max({})", max), front));
+		v.push((format!("alternating-max({})", max), (0..max).map(|i| i % 2).collect()));
+		v.push((format!("pairs-max({})", max), (0..max).map(|i| i / 2).collect()));
+	}
+	v
+}
+
+fn repeated_items(cx: &mut Ctx) {
+	set_env('A', true);
+	// GetHeaders locator (at most 20 hashes)
+	let hs: Vec<Hash> = (0..20).map(|_| hash32(&mut cx.rng)).collect();
+	for (name, idx) in dup_patterns(20) {
+		let l = Locator { hashes: idx.iter().map(|i| hs[*i]).collect() };
+		cx.corner(&format!("Locator:repeated:{}", name));
+		roundtrip_all(cx, 'A', false, &l, true);
+	}
+	// PeerAddrs (at most 256): V4 and V6 addresses
+	for fam in 0..2u64 {
+		let addrs: Vec<PeerAddr> = (0..256).map(|j| gen_addr(&mut cx.rng, fam + 2 * (j as u64 % 2))).collect();
+		for (name, idx) in dup_patterns(256) {
+			let pa = PeerAddrs { peers: idx.iter().map(|i| addrs[*i].clone()).collect() };
+			cx.corner(&format!("PeerAddrs:repeated:{}", name));
+			roundtrip_all(cx, 'A', false, &pa, idx.len() <= 5);
+		}
+	}
+	// Headers (writer): the same header twice in a row must be written twice
+	for chain in ['A', 'M'].iter() {
+		set_env(*chain, false);
+		let pool: Vec<BlockHeader> = (0..3).map(|_| gen_header(&mut cx.rng, *chain)).collect();
+		for (name, idx) in dup_patterns(0) {
+			let msg = Headers { headers: idx.iter().map(|i| pool[*i].clone()).collect() };
+			let toks: Vec<String> = msg.headers.iter().map(|h| header_tokens(h)).collect();
+			for v in VERSIONS.iter() {
+				set_env(*chain, false);
+				let eb = enc_at(&msg, *v);
+				cx.out.line(&format!("ser enc Headers {} {} {} {}", v, chain, idx.len(), toks.join(" ")), &format!("{} none", show_enc(&eb)));
+				let mut want = (idx.len() as u16).to_be_bytes().to_vec();
+				let mut ok = true;
+				for h in &msg.headers {
+					match enc_at(h, *v) {
+						Ok(b) => want.extend_from_slice(&b),
+						Err(_) => ok = false,
+					}
+				}
+				match eb {
+					Ok(b) if ok && b == want => cx.stat(format!("Headers repeated {} ok", name)),
+					other => cx.oracle_fail(format!("Headers with repeated headers ({}) is not written as count + every header in order: {} [version {}]", name, show_enc(&other), v)),
+				}
+			}
+		}
+	}
+	// MerkleProof path, spent index, Vec<OutputIdentifier> (the generic Vec<T> reader)
+	for (name, idx) in dup_patterns(64) {
+		let p = MerkleProof { mmr_size: pick_u64(&mut cx.rng), path: idx.iter().map(|i| hs[*i % 20]).collect() };
+		cx.corner(&format!("MerkleProof:repeated:{}", name));
+		roundtrip_all(cx, 'A', false, &p, idx.len() <= 5);
+	}
+	let cps: Vec<CommitPos> = (0..40).map(|_| CommitPos { pos: pick_u64(&mut cx.rng), height: pick_u64(&mut cx.rng) }).collect();
+	let oids: Vec<OutputIdentifier> = (0..40).map(|j| gen_output(&mut cx.rng, j % 2 == 0).identifier()).collect();
+	for (name, idx) in dup_patterns(40) {
+		let l: Vec<CommitPos> = idx.iter().map(|i| cps[*i]).collect();
+		cx.corner(&format!("SpentIndex:repeated:{}", name));
+		roundtrip_all(cx, 'A', false, &l, idx.len() <= 5);
+		let l: Vec<OutputIdentifier> = idx.iter().map(|i| oids[*i]).collect();
+		cx.corner(&format!("OutputIdVec:repeated:{}", name));
+		roundtrip_all(cx, 'A', false, &l, idx.len() <= 5);
+	}
+	// segments: the positions must increase strictly, the hashes / leaves / proof hashes at them may
+	// repeat (equal kernels or outputs at different positions are representable on the wire)
+	fn seg_repeats<T: Item>(cx: &mut Ctx, hs: &[Hash]) {
+		let leaves: Vec<T> = (0..24).map(|i| T::gen(&mut cx.rng, i)).collect();
+		for (name, idx) in dup_patterns(24) {
+			let n = idx.len();
+			let pos: Vec<u64> = (0..n as u64).map(|i| 3 * i + 1).collect();
+			for which in 0..3 {
+				// 0: repeated pruned-subtree hashes, 1: repeated leaves, 2: repeated proof hashes
+				let hashes: Vec<Hash> = if which == 0 { idx.iter().map(|i| hs[*i % 20]).collect() } else { vec![hs[0]] };
+				let hpos: Vec<u64> = if which == 0 { pos.clone() } else { vec![0] };
+				let ld: Vec<T> = if which == 1 { idx.iter().map(|i| leaves[*i].clone()).collect() } else { vec![leaves[0].clone()] };
+				let lpos: Vec<u64> = if which == 1 { pos.iter().map(|p| p + 100).collect() } else { vec![200] };
+				let pf: Vec<Hash> = if which == 2 { idx.iter().map(|i| hs[*i % 20]).collect() } else { vec![hs[1]] };
+				let proof = match proof_for(cx, &pf) {
+					Some(p) => p,
+					None => continue,
+				};
+				let id = SegmentIdentifier { height: 9, idx: 3 };
+				let seg = match catch(AssertUnwindSafe(|| Segment::from_parts(id, hpos, hashes, lpos, ld, proof))) {
+					Ok(s) => s,
+					Err(_) => continue,
+				};
+				cx.corner(&format!("{}:repeated-{}:{}", T::SEG_NAME, ["hashes", "leaves", "proof"][which], name));
+				roundtrip_all(cx, 'A', true, &seg, n <= 3);
+			}
+		}
+	}
+	seg_repeats::<OutputIdentifier>(cx, &hs);
+	seg_repeats::<TxKernel>(cx, &hs);
+	seg_repeats::<RangeProof>(cx, &hs);
+	// bitmap segments: identical blocks next to each other (two equal full blocks, then a last one),
+	// identical chunks inside a block
+	for kind in [0u64, 2, 5, 7].iter() {
+		let full = gen_block_bits(&mut cx.rng, 64, *kind);
+		let last = gen_block_bits(&mut cx.rng, 3, *kind);
+		for blocks in [vec![BlockBits(full.0.clone()), BlockBits(full.0.clone())], vec![BlockBits(full.0.clone()), BlockBits(full.0.clone()), BlockBits(last.0.clone())], vec![BlockBits(full.0.clone()), BlockBits(full.0.clone()), BlockBits(full.0.clone())]].iter() {
+			if let Some(pf) = proof_for(cx, &[hs[0], hs[0]]) {
+				let id = SegmentIdentifier { height: 8, idx: 1 };
+				if let Some(seg) = bitmap_segment_from(id, blocks, pf) {
+					cx.corner("BitmapSegment:repeated-blocks");
+					roundtrip_all(cx, 'A', false, &seg, false);
+				}
+			}
+		}
+	}
+}
+
 fn main() {
 	quiet_panics();
 	let args: Vec<String> = std::env::args().collect();
@@ -5055,6 +5197,7 @@ fn main() {
 	}
 	if section == "all" || section == "msg" {
 		messages(&mut cx);
+		repeated_items(&mut cx);
 	}
 	if section == "all" || section == "store" {
 		store_elements(&mut cx);
